@@ -155,6 +155,31 @@ def rule_balance(ck, facts, pm):
     ck.floor(R, "functions_with_node_frames", n, 6)
 
 
+
+def rule_wrap_from_marker(ck, facts):
+    """wrapping what was parsed since a marker keeps every node parsed since the marker, in order"""
+    R = "C13.balance"
+    lang = facts.crate(roles.LANG)
+    n = 0
+    for f in lang.fns:
+        if "::parser::green::" not in f.path or f.kind not in ("assoc", "fn") or "::test" in f.path:
+            continue
+        if not any("Marker" in f.local_ty(i) for i in range(1, f.d["argc"] + 1)):
+            continue
+        names = [(callee(t) or "").split("::")[-1].split("<")[0] for _, t in f.calls()]
+        if "push" not in names:
+            continue  # does not open a node
+        n += 1
+        key = "wrap-from-marker|%s" % f.short.split("::")[-1]
+        whole = [x for x in names if x in ("drain", "split_off")]
+        single = [x for x in names if x in ("remove", "swap_remove", "pop", "get", "nth")]
+        if whole and not single:
+            ck.ok(R, key, {"fn": f.short.split("::")[-1], "moves": whole[0]})
+        else:
+            ck.bad(R, key, "%s opens a node at a marker without moving *all* children parsed since the marker into it (%s): the nodes that stay behind end up before the new node, so the leaves of the tree are no longer in source order (`(float) | int`: the parentheses and the inner type are three siblings, only the first is wrapped)" % (f.short, ("takes one element with `%s`" % single[0]) if single else "no drain / split_off from the marker position"), f.where())
+    ck.floor(R, "marker_wrapping_builders", n, 1)
+
+
 def rule_root(ck, facts, pm):
     R = "C13.root"
     ck.rule(R, "the root parse loop is left only when is_at_end() holds, and the root node is finished after the loop")
@@ -646,6 +671,7 @@ def run(ck, facts, tier):
     rule_lexer_model(ck, facts, tier, clauses=("tiling", "no-progress"))
     rule_cursor(ck, facts, pm)
     rule_balance(ck, facts, pm)
+    rule_wrap_from_marker(ck, facts)
     rule_root(ck, facts, pm)
     rule_trivia(ck, facts)
     rule_token_extent(ck, facts)
